@@ -579,4 +579,45 @@ def mapUrl (ctx : MCtx) (p : MPos) (key : Bytes) (params : List Bytes) : Except 
       | .error e => .error e
       | .ok u => .ok (ctx.root ++ u)
 
+/-! ### `util::stackbuf<N>` — the buffer `real_map` builds the URL in when `misc.invalid_url_throws` is false (the default)
+
+`N` bytes on the stack, then the heap with doubling capacity.  `std::ostream <<` reaches it through `sputn`/`sputc`; the
+library's `xsputn` copies what fits and calls `overflow(next byte)` when the put area is full — i.e. a sequence of `sputc`s. -/
+
+structure SBuf where
+  /-- size of the current put area (`epptr()-pbase()`) -/
+  cap : Nat
+  /-- `[pbase(), pptr())` -/
+  data : Bytes
+  /-- `pbase() == on_stack_` -/
+  onStack : Bool
+deriving DecidableEq, Repr
+
+def SBuf.init (N : Nat) : SBuf := ⟨N, [], true⟩
+
+/-- `stackbuf::overflow(c)` (expressions from `Gen.lean`): grow, keep `current_size` bytes (`memcpy`/`realloc` + `pbump`),
+then store the pending byte -/
+def SBuf.overflow (N : Nat) (b : SBuf) (c : UInt8) : SBuf :=
+  let cur := if b.onStack then Gen.sbStackCur N else b.data.length
+  let new := if b.onStack then Gen.sbStackNew N else Gen.sbHeapNew cur
+  let kept := b.data.take cur
+  if Gen.sbStoreBumps && decide (kept.length < new) then ⟨new, kept ++ [c], false⟩
+  else ⟨new, kept, false⟩        -- byte written behind the put pointer (or no room): not part of `[pbase,pptr)`
+
+def SBuf.sputc (N : Nat) (b : SBuf) (c : UInt8) : SBuf :=
+  if b.data.length < b.cap then { b with data := b.data ++ [c] } else b.overflow N c
+
+def SBuf.write (N : Nat) (b : SBuf) (s : Bytes) : SBuf := s.foldl (SBuf.sputc N) b
+
+def invalidUrlText : Bytes :=
+  [47, 116, 104, 105, 115, 95, 105, 115, 95, 97, 110, 95, 105, 110, 118, 97, 108, 105, 100, 95, 117, 114, 108, 95, 103, 101, 110,
+   101, 114, 97, 116, 101, 100, 95, 98, 121, 95, 117, 114, 108, 95, 109, 97, 112, 112, 101, 114]
+
+/-- `url_mapper::map(out,key,…)` with `misc.invalid_url_throws = false`: everything is written into a `steal_buffer<>`
+(= `stackbuf<128>`) and then `output << temp_buf.c_str()` (a C string); on any error the fixed text is written instead -/
+def mapUrlNT (ctx : MCtx) (p : MPos) (key : Bytes) (params : List Bytes) : Bytes :=
+  match mapUrl ctx p key params with
+  | .ok u => cstr (SBuf.write Gen.sbDefaultSize (SBuf.init Gen.sbDefaultSize) u).data
+  | .error _ => invalidUrlText
+
 end Cppcms.C20
